@@ -178,6 +178,9 @@ func withPrescreen(k int, mk func(r *rand.Rand, i int) *spec.Grammar) func(r *ra
 			if first == nil {
 				first = g
 			}
+			if len(g.Rules) > 200 {
+				return g // size families: taken as they come
+			}
 			if in := prescreen(g, r); len(in) > 0 {
 				setPrio(g, in)
 				return g
